@@ -202,11 +202,12 @@ impl RtpsStatefulWriter {
                         core::iter::once(nackfrag_submessage.fragment_number_state().base())
                             .chain(nackfrag_submessage.fragment_number_state().set())
                     {
+                        // Fragment numbers on the wire start at 1
                         let request_fragment_number = request_fragment_number as usize;
-                        // Either send a DATAFRAG submessages or send a single DATA submessage
-                        if (request_fragment_number) < number_of_fragments
+                        if (1..=number_of_fragments).contains(&request_fragment_number)
                             && cache_change.kind == ChangeKind::Alive
                         {
+                            let request_fragment_number = request_fragment_number - 1;
                             let writer_id = self.guid.entity_id();
                             let reader_id = reader_proxy.remote_reader_guid().entity_id();
                             let data_frag = cache_change.as_data_frag_submessage(
